@@ -113,7 +113,7 @@ func TestCheck(t *testing.T) {
 		defer pprof.StopCPUProfile()
 	}
 	r.Assume = append(r.Assume,
-		"single height (0); a validator that emitted Commit receives nothing further",
+		"parts A and B: single height (0), a validator that emitted Commit receives nothing further; part A2: two heights, the next height is started at once after a commit, messages of the height left are dropped for that validator",
 		"messages of rounds above the round bound are not delivered; nothing is claimed beyond the completed k, the round bound and the prefix catalogue",
 		"duplicate delivery and stale timeouts are not separate deviations: each is verified to be a no-op on the real machine (every memo miss / when it becomes stale)",
 		"Byzantine alphabet: nil, each correct proposer's value, one valid Byzantine-only value, one invalid value (if it can propose); any valid-round; any non-empty receiver subset",
@@ -128,6 +128,7 @@ func TestCheck(t *testing.T) {
 	if envInt("VERIF_C12_SKIP_C", 0) == 0 {
 		thresholds(r)
 		voteCounterDifferential(r)
+		futureHeightBuffer(r)
 	}
 
 	eq := []uint{1, 1, 1, 1}
@@ -161,6 +162,26 @@ func TestCheck(t *testing.T) {
 			byz int
 		}{{[]uint{2, 1, 1, 1}, 1}, {[]uint{2, 1, 1, 1}, 3}, {[]uint{1, 2, 1, 1}, 0}, {[]uint{3, 2, 1, 1}, 1}, {[]uint{3, 1, 2, 1}, 2}, {[]uint{1, 3, 1, 2}, 0}} {
 			searchFrom(r, newCfg(fmt.Sprintf("n4 powers=%v byz=%d R=1", w.p, w.byz), w.p, w.byz, 1), "A", fromStart, 0, 2)
+		}
+	}
+
+	// ---- (A2) two heights: the machines continue into height 1 after committing height 0 ----------------------
+	// proposer(h, r) = (h+r) mod 4 rotates across heights; messages of height 1 reach validators still at height 0
+	// (future-height buffer) both naturally (validators commit at different times) and from the Byzantine validator.
+	type twoH struct {
+		rh []int
+		k  int
+	}
+	plan := []twoH{{[]int{0, 0}, 2}}
+	if r.Thorough() {
+		plan = []twoH{{[]int{0, 0}, 3}, {[]int{1, 1}, 2}}
+	}
+	for _, p := range plan {
+		for _, b := range []int{0, 1, 2, 3} {
+			if ob := envInt("VERIF_C12_ONLYBYZ", -1); ob >= 0 && ob != b {
+				continue
+			}
+			searchFrom(r, newCfgH(fmt.Sprintf("n4 equal byz=%d heights=2 R=%v", b, p.rh), eq, b, p.rh), "A2", fromStart, 0, envInt("VERIF_C12_K2", p.k))
 		}
 	}
 
@@ -281,6 +302,7 @@ func replay(r *ev.Run, file string) {
 			Powers []uint   `json:"powers"`
 			Byz    int      `json:"byzantine"`
 			R      int      `json:"round_bound"`
+			RH     []int    `json:"round_bounds_per_height"`
 			Devs   []string `json:"deviations_from_benign_schedule"`
 		} `json:"detail"`
 	}
@@ -288,7 +310,10 @@ func replay(r *ev.Run, file string) {
 		r.Infra("replay: not a search violation record (threshold / vote-counter records carry their case in the detail): %v", err)
 	}
 	os.Setenv("VERIF_C12_DEBUG", "1")
-	c := newCfg(rec.Detail.Config, rec.Detail.Powers, rec.Detail.Byz, rec.Detail.R)
+	if len(rec.Detail.RH) == 0 {
+		rec.Detail.RH = []int{rec.Detail.R}
+	}
+	c := newCfgH(rec.Detail.Config, rec.Detail.Powers, rec.Detail.Byz, rec.Detail.RH)
 	s := newSearcher(c, r, "replay "+rec.Detail.Config)
 	fmt.Printf("replaying %q on %s: %v\n", rec.Key, rec.Detail.Config, rec.Detail.Devs)
 	g, tr, ok := s.script(rec.Detail.Devs)
